@@ -65,7 +65,7 @@ var (
 	events   []*event
 	seq      int
 	nowCalls atomic.Int64
-	nowWait  atomic.Int64 // how long a tick waits for its reader's clock read (ns)
+	nowWait  atomic.Int64 // how long a tick waits for the process to quiesce (ns)
 	// AutoAdvance makes Sleep and a receive-less After/Sleep move the virtual
 	// clock themselves (single-threaded scenarios such as RetryWithDelay).
 	autoAdvance bool
@@ -233,44 +233,25 @@ func Advance(d Duration) {
 	}
 }
 
-// deliverTick hands one tick to the ticker's reader and waits until the
-// reader has finished what the tick made it do: the tick is followed by a
-// probe on the same unbuffered channel, which can only be received once the
-// reader is back at its receive. Both are followed by a short wait for the
-// reader's clock read so that the work started by the probe (a repetition at
-// the same virtual instant, hence without effect) has sampled the clock
-// before the driver moves it again.
+// deliverTick hands one tick to the ticker's reader (the channel is unbuffered: the reader has to be at
+// its receive, otherwise the tick counts as missed after `wait`) and then waits until the reader - and
+// whatever it set in motion - has run to its next blocking point, so that the work the tick causes
+// happens at this virtual instant and is over before the driver observes or moves the clock again.
 func deliverTick(e *event, at time.Time, wait time.Duration) {
-	send := func() bool {
-		n0 := nowCalls.Load()
-		t := time.NewTimer(wait)
-		defer t.Stop()
-		select {
-		case e.ch <- at:
-		case <-t.C:
-			tickMisses.Add(1)
-			mu.Lock()
-			if tickWait > 20*time.Millisecond {
-				tickWait = 20 * time.Millisecond // a reader that is gone stays gone
-			}
-			mu.Unlock()
-			return false
+	t := time.NewTimer(wait)
+	defer t.Stop()
+	select {
+	case e.ch <- at:
+	case <-t.C:
+		tickMisses.Add(1)
+		mu.Lock()
+		if tickWait > 20*time.Millisecond {
+			tickWait = 20 * time.Millisecond // a reader that is gone stays gone
 		}
-		// the reader is alive (it took the tick): give it time to sample the clock even on a loaded
-		// machine; a reader that never reads the clock costs this wait once, then a short one
-		deadline := time.Now().Add(time.Duration(nowWait.Load()))
-		for nowCalls.Load() == n0 {
-			if time.Now().After(deadline) {
-				nowWait.Store(int64(2 * time.Millisecond))
-				break
-			}
-			time.Sleep(5 * time.Microsecond)
-		}
-		return true
+		mu.Unlock()
+		return
 	}
-	if send() {
-		send()
-	}
+	Quiesce(time.Duration(nowWait.Load()))
 }
 
 // Quiesce waits (at most max) until every other goroutine of the process is blocked - in a channel
@@ -307,6 +288,18 @@ var quiesceMisses atomic.Int64
 // QuiesceMisses counts the waits for quiescence that ran out of time.
 func QuiesceMisses() int64 { return quiesceMisses.Load() }
 
+// blockedStates are the goroutine states (as printed in a stack dump) in which a goroutine cannot move
+// before somebody else does something; every other state - running, runnable, syscall, preempted,
+// the garbage collector's assist states - counts as active.
+var blockedStates = map[string]bool{
+	"chan receive": true, "chan send": true, "select": true, "select (no cases)": true,
+	"chan receive (nil chan)": true, "chan send (nil chan)": true,
+	"semacquire": true, "sync.Mutex.Lock": true, "sync.RWMutex.RLock": true, "sync.RWMutex.Lock": true,
+	"sync.Cond.Wait": true, "sync.WaitGroup.Wait": true, "sleep": true, "IO wait": true,
+	"finalizer wait": true, "GC worker (idle)": true, "force gc (idle)": true, "GC sweep wait": true,
+	"GC scavenge wait": true, "timer goroutine (idle)": true, "cleanup wait": true,
+}
+
 // othersBlocked parses an all-goroutine stack dump: the first record is the caller; every other
 // goroutine must be in a state other than running / runnable.
 func othersBlocked(dump []byte) bool {
@@ -324,7 +317,7 @@ func othersBlocked(dump []byte) bool {
 		if c := bytes.IndexByte(st, ','); c >= 0 {
 			st = st[:c]
 		}
-		if bytes.Equal(st, []byte("running")) || bytes.Equal(st, []byte("runnable")) {
+		if !blockedStates[string(st)] {
 			return false
 		}
 	}
@@ -400,11 +393,15 @@ func (t *Timer) Reset(d Duration) bool {
 		return t.r.Reset(d)
 	}
 	mu.Lock()
-	defer mu.Unlock()
 	was := !t.e.dead
 	t.e.dead = true
 	ne := &event{fn: t.e.fn, ch: t.e.ch}
 	t.e = addEvent(d, ne)
+	a := autoAdvance && ne.ch != nil
+	mu.Unlock()
+	if a {
+		Advance(d) // as in NewTimer: with auto-advance a wait moves the clock itself
+	}
 	return was
 }
 
